@@ -10,7 +10,7 @@ FUNCS = ['DigitalRFEventHandler.__init__ (regex selection)', 'DigitalRFEventHand
          'list_drf.ilsdrf (property regex choice)', 'list_drf RE_* patterns']
 
 TITLES = {
-    '_dispatch_simple': 'created/modified/deleted delivered iff the path matches and start <= secs*1000+frac <= end (inclusive), to on_<type>',
+    '_dispatch_simple': 'created/modified/deleted delivered iff the path matches and start <= name time <= end (inclusive; bounds are datetimes with microsecond resolution, naive = UTC or aware with any offset; handler built by its real constructor), to on_<type>',
     '_dispatch_untimed': 'names without a timestamp and match_time=False bypass the window',
     '_dispatch_moved': 'moved: only dest matches -> creation of dest (finalizing rename); only src -> deletion of src; both -> moved; none -> dropped',
     '_dispatch_dirs': 'directory events are never delivered',
@@ -62,15 +62,19 @@ EPOCH = datetime.datetime(1970, 1, 1, tzinfo=datetime.timezone.utc)
 def name(ok, secs, frac):
     if not ok: return '/w/ch/2020-01-01T00-00-00/notes.txt'
     return '/w/ch/2020-01-01T00-00-00/' + ('rf@%%d.%%03d.h5' %% (secs, frac) if frac is not None else 'metadata@%%d.h5' %% secs)
-def tm(ms): return None if ms is None else EPOCH + datetime.timedelta(milliseconds=ms)
+def tm(ms, us):
+    if ms is None: return None
+    t = EPOCH + datetime.timedelta(milliseconds=ms, microseconds=us)
+    if kw.get('aware'): return t.astimezone(datetime.timezone(datetime.timedelta(seconds=kw.get('off', 0))))
+    return t.replace(tzinfo=None)
 got = []
 class H(W.DigitalRFEventHandler):
     def on_created(self, e): got.append(('created', e.src_path))
     def on_modified(self, e): got.append(('modified', e.src_path))
     def on_deleted(self, e): got.append(('deleted', e.src_path))
     def on_moved(self, e): got.append(('moved', e.src_path, e.dest_path))
-h = H(starttime=tm(kw.get('start')), endtime=tm(kw.get('end')))
-inwin = lambda secs, frac: (kw.get('start') is None or secs * 1000 + (frac or 0) >= kw['start']) and (kw.get('end') is None or secs * 1000 + (frac or 0) <= kw['end'])
+h = H(starttime=tm(kw.get('start'), kw.get('sub', 0)), endtime=tm(kw.get('end'), kw.get('sube', 0)))
+inwin = lambda secs, frac: (kw.get('start') is None or (secs * 1000 + (frac or 0)) * 1000 >= kw['start'] * 1000 + kw.get('sub', 0)) and (kw.get('end') is None or (secs * 1000 + (frac or 0)) * 1000 <= kw['end'] * 1000 + kw.get('sube', 0))
 if mode == 'simple':
     p = name(kw['ok'], kw['secs'], kw['frac'])
     ev = [FileCreatedEvent, FileModifiedEvent, FileDeletedEvent][kw['kind']](p)
